@@ -163,6 +163,77 @@ def part_files(ck, fmt):
     return len(got)
 
 
+def part_lp_reader_model(ck, variant):
+    """tie of the LP reader model (IO/LpRead.read_lp_res, extracted) to mpq_QSget_prob: rendered files, token-mutated
+    files (mostly rejected) and files written by the library; both must reject, or both deliver problems that are
+    equiv_by_name in both directions with equal counts"""
+    sys.set_int_max_str_digits(0)
+    rng = ck.rng
+    n = (3000 if ck.thorough() else 240)
+    cases, texts, kind = [], {}, {}
+    for i in range(n):
+        cid = "r%d" % i
+        if i % 3 == 2:
+            P = G.gen_problem(rng, "LP", big=(i % 2 == 0)) if i % 4 else G.gen_problem_kwbounds(rng, "LP")
+            texts[cid], kind[cid] = None, "written by the library"
+            cases.append((cid, "\n".join(["CASE %s" % cid, load_block(0, P), "WRITE h0 f LP", "CAT f", "READ h0 f LP", "DUMPO h0"]) + "\n"))
+            continue
+        K = G.gen_known(rng, "LP", big=(i % 2 == 0))
+        t, fl = G.render_lp(rng, K, colon_in_comment=(i % 9 == 0), final_newline=(i % 7 != 0))
+        kind[cid] = "rendered"
+        if i % 3 == 1:
+            t = G.mutate_tokens(rng, t)
+            kind[cid] = "token-mutated"
+            if not G.exp_digits_ok(t):
+                t = "max\n x\nst\n x <= 1e5\nend\n"
+        texts[cid] = t.encode("latin-1", "replace")
+        cases.append((cid, "CASE %s\nPUT f %s\nREAD h0 f LP\nDUMPO h0\n" % (cid, enc(texts[cid]))))
+    scripts = dict(cases)
+    M, outs, crashes, _ = run_io_cases(cases, tag="C10r")
+    crashed = {c[0] for c in crashes}
+    q = ["M " + M]
+    lib = {}
+    for cid in kind:
+        toks = outs.get(cid)
+        if cid in crashed or toks is None:
+            continue          # a crash of the reader is C11's business; not a basis for the comparison
+        ops = split_ops(toks)
+        r = [o for o in ops if o[0][0] == "READ"]
+        d = [o for o in ops if o[0][0] == "P"]
+        if texts[cid] is None:
+            c = [o for o in ops if o[0][0] == "CAT"]
+            tb = cat_bytes(c[0]) if c else None
+            if tb is None:
+                continue
+            texts[cid] = tb
+        if b"\x00" in texts[cid] or len(texts[cid]) > 300000:
+            continue
+        if r and r[0][0][1] == "OK" and d:
+            P = dump_of(d[0])
+            lib[cid] = P
+            q.append("Q %s lpread %d %s\n%s" % (cid, variant, enc(texts[cid]), slp_block(P)))
+        else:
+            lib[cid] = None
+            q.append("Q %s lpread %d %s\nNONE" % (cid, variant, enc(texts[cid])))
+    ans = run_model_par("drv_io", q)
+    hist, bad = {}, []
+    for cid in lib:
+        a = ans.get(cid)
+        ck.count(("lpread", texts[cid]), nontrivial=(a is not None and a[0] == "OK"))
+        key = "%s: %s" % (kind[cid], "accepted by both" if (a and a[0] == "OK" and lib[cid] is not None) else "rejected by both" if (a and a[0] != "OK" and lib[cid] is None) else "DISAGREE")
+        hist[key] = hist.get(key, 0) + 1
+        if a is None or len(a) < 2 or a[1] != "true" or a[0] in ("FUEL", "FLT"):
+            bad.append((cid, a))
+    ck.cov["lp_reader_correspondence"] = dict(files=len(lib), outcome_histogram=hist, disagreements=len(bad))
+    for cid, a in bad[:3]:
+        ck.violation("lpread_%s.txt" % cid, scripts[cid] + "\n# model answer (outcome, agree, ncols, nrows): %s\n# library: %s\n# text:\n%s\n" % (
+                         a, "rejected" if lib[cid] is None else problem_text(lib[cid]), texts[cid].decode("latin-1")),
+                     "LP reader model (IO/LpRead.read_lp_res) and mpq_QSget_prob disagree on %s file %s: model %s, library %s" % (
+                         kind[cid], cid, a, "rejected the file" if lib[cid] is None else "delivered a problem"),
+                     match=dict(kind="corr-lpread"))
+    return len(lib)
+
+
 def main():
     ck = Check("C10", "proof")
     build_repo()
@@ -172,6 +243,7 @@ def main():
         ck.violation("probe.txt", "NUMF 1/0\nNUMF /1\n", "the number scanner matches neither model variant on the probe strings", no_input=True, match=dict(kind="corr-num"))
         variant = 0
     part_numbers(ck, variant)
+    part_lp_reader_model(ck, variant)
     nl = part_files(ck, "LP")
     nm = part_files(ck, "MPS")
     if not pr["ok"]:
@@ -182,8 +254,12 @@ def main():
                       "comments (\\, *, $), explicit +, omitted coefficient 1, repeated and zero terms, all number spellings, bound statement forms incl. implicit "
                       "defaults, RANGES of both signs, BV/UI/LI/MI/PL/FR/FX bounds, RHS on the objective, blank set names, missing final newline; real reader -> "
                       "dump -> equiv_by_name with equal row/column counts; non-trivial = string consumed / file compared; distinct by text")
-    ck.cov["not_covered"] = ("no token-level model of the LP/MPS readers: the file-level statement is explored, not proved; blanks between 'inf' and '<=' are "
-                             "required by the reader and always rendered; SOS sections and REFROW are not rendered")
+    ck.cov["rule"] += ("; part 0: extracted LP reader model IO/LpRead.read_lp_res vs mpq_QSget_prob on rendered files, token-mutated files (mostly rejected) and "
+                       "files written by the library: both reject, or both deliver problems equiv_by_name in both directions with equal counts")
+    ck.cov["not_covered"] = ("the file-level statement is proved for the LP reader MODEL and the writer's layout family only (C10_lp_written_file_partial, "
+                             "C10_lp_expr_any_wrapping); for the other lexical freedoms (keyword spellings, comments, explicit '+', repeated terms, decimal / exponent "
+                             "spellings inside files, several bound statements per line) the model is compared with the library file by file, not proved; "
+                             "the LP reader model is proved total (C10_lp_reader_total) and to depend on the bytes only through the cut lines (C10_lp_reader_cut, C10_lp_reader_bytes); no model of the MPS reader; blanks between 'inf' and '<=' are required by the reader and always rendered; SOS / REFROW not rendered")
     ck.assumptions = ["Coq kernel; extraction; OCaml", "renderers of checks/io_gen.py are independent of the Coq development", "harness h_io.c"]
     cleanup_scratch()
     ck.finish(trusted_base=["coqc 8.16.1 kernel", "OCaml extraction", "harness/h_io.c + checks/io_common.py + checks/io_gen.py + checks/C10.py"])
